@@ -16,6 +16,7 @@ import (
 
 	"saoverif/internal/core"
 	"saoverif/internal/eff"
+	"saoverif/internal/guard"
 	"saoverif/internal/prog"
 	"saoverif/internal/rules"
 	"saoverif/internal/term"
@@ -56,6 +57,7 @@ func main() {
 	pt := prog.Quick
 	if *tier == "thorough" {
 		pt = prog.Thorough
+		guard.MaxHelperDepth = 4
 	}
 	p, err := prog.Load(*repo, pt)
 	if err != nil {
